@@ -215,6 +215,13 @@ def tpl_meth(ch):
            '    def __call__(self, {shape}):\n        return self.target(*{va}, **{vk})\n'
            '    @specifiers.forwards_to_method("target", emulate=True)\n'
            '    def fe(self, {shape}):\n        return self.target(*{va}, **{vk})\n\n'
+           'def hook({target}):\n    return "hook"\n\n'
+           'class P(object):\n'
+           '    # implicitly transformed names (classmethod / staticmethod without the decorator)\n'
+           '    @specifiers.forwards_to_function(hook, emulate=True)\n'
+           '    def __init_subclass__(cls, {shape}):\n        hook(*{va}, **{vk})\n'
+           '    @specifiers.forwards_to_function(hook, emulate=True)\n'
+           '    def __class_getitem__(cls, {shape}):\n        return hook(*{va}, **{vk})\n\n'
            'inst = C()\ninst2 = C()\ndinst = D()\neinst = object.__new__(E)\n'
            ).format(sep=sep, base_m=base_m, tsep=tsep, target=target,
                     shape=shape[0], va=shape[1], vk=shape[2])
@@ -225,6 +232,7 @@ def tpl_meth(ch):
         # members wrapped with emulate=True: looked up (hence bound for the first time) by the
         # retrieval itself when the subject is the class or a callable instance
         'E': 'E', 'einst': 'einst', 'einst.fe': 'einst.fe',
+        'P.__init_subclass__': 'P.__init_subclass__', 'P.__class_getitem__': 'P.__class_getitem__',
     }
     return dict(template='meth', params=dict(base_m=base_m, target=target, shape=shape[0]),
                 source=src, subjects=subjects, tags={'forger'})
@@ -586,7 +594,12 @@ class World(object):
             self.filename = '<sim:{0}.py>'.format(uid)
             lines = self.source.splitlines(True)
             linecache.cache[self.filename] = (len(self.source), None, lines, self.filename)
-            code = compile(self.source, self.filename, 'exec')
+            limit = sys.getrecursionlimit()
+            sys.setrecursionlimit(max(limit, 20000))    # deeply nested generated expressions must compile
+            try:
+                code = compile(self.source, self.filename, 'exec')
+            finally:
+                sys.setrecursionlimit(limit)
         self.module = types.ModuleType(self.modname)
         self.module.__file__ = self.filename
         sys.modules[self.modname] = self.module
